@@ -117,7 +117,12 @@ var (
 	//
 	//	logit("Invalid user %.100s from %.100s port %d",
 	//	    user, ssh_remote_ipaddr(ssh), ssh_remote_port(ssh));
-	invalidUserRE = regexp.MustCompile(`Invalid user (?P<Username>\S+) from (?P<Source>\S+) port (?P<Port>\d+)`)
+	//
+	// The user name is chosen by the client and may contain anything,
+	// including spaces and " from <addr> port <n>" look-alikes. The address
+	// and port sshd observed are always the last ones on the line, so the
+	// user name group is greedy.
+	invalidUserRE = regexp.MustCompile(`Invalid user (?P<Username>.*) from (?P<Source>\S+) port (?P<Port>\d+)`)
 
 	// notInAllowUsersRE matches the sshd AllowUsers violation message,
 	// allowing us to extract information about the login violation.
